@@ -124,3 +124,81 @@ def padding(root: str) -> Dict[str, str]:
 
 
 SWEEPS = {"roundtrip": roundtrip, "rename": rename, "padding": padding}
+
+
+# --- three more behaviour-preserving rewrites (added after round 3) --------------------------------------------------
+class _FlipCompare(ast.NodeTransformer):
+    """a < b  ->  b > a   (single-operator ordering comparisons only)"""
+
+    FLIP = {ast.Lt: ast.Gt, ast.Gt: ast.Lt, ast.LtE: ast.GtE, ast.GtE: ast.LtE}
+
+    def visit_Compare(self, node: ast.Compare):
+        self.generic_visit(node)
+        if len(node.ops) == 1 and type(node.ops[0]) in self.FLIP:
+            return ast.copy_location(ast.Compare(left=node.comparators[0], ops=[self.FLIP[type(node.ops[0])]()], comparators=[node.left]), node)
+        return node
+
+
+def flip_compare(root: str) -> Dict[str, str]:
+    out = {}
+    for rel, src in _sources(root).items():
+        tree = _FlipCompare().visit(ast.parse(src))
+        ast.fix_missing_locations(tree)
+        out[rel] = ast.unparse(tree) + "\n"
+    return out
+
+
+class _SwapBranches(ast.NodeTransformer):
+    """if c: A else: B  ->  if not c: B else: A   (plain if/else, no elif chains)"""
+
+    def visit_If(self, node: ast.If):
+        self.generic_visit(node)
+        if node.orelse and not (len(node.orelse) == 1 and isinstance(node.orelse[0], ast.If)):
+            return ast.copy_location(ast.If(test=ast.UnaryOp(op=ast.Not(), operand=node.test), body=node.orelse, orelse=node.body), node)
+        return node
+
+
+def swap_branches(root: str) -> Dict[str, str]:
+    out = {}
+    for rel, src in _sources(root).items():
+        tree = _SwapBranches().visit(ast.parse(src))
+        ast.fix_missing_locations(tree)
+        out[rel] = ast.unparse(tree) + "\n"
+    return out
+
+
+class _ReturnTemp(ast.NodeTransformer):
+    """return <call or operator expression>  ->  _rv = <expr>; return _rv   (not inside lambdas / generators)"""
+
+    def _block(self, stmts):
+        out = []
+        for st in stmts:
+            st = self.visit(st)
+            if isinstance(st, ast.Return) and isinstance(st.value, (ast.Call, ast.BinOp, ast.Compare, ast.BoolOp, ast.Subscript)):
+                out.append(ast.copy_location(ast.Assign(targets=[ast.Name(id="_rv", ctx=ast.Store())], value=st.value), st))
+                out.append(ast.copy_location(ast.Return(value=ast.Name(id="_rv", ctx=ast.Load())), st))
+            else:
+                out.append(st)
+        return out
+
+    def generic_visit(self, node):
+        for field in ("body", "orelse", "finalbody"):
+            v = getattr(node, field, None)
+            if isinstance(v, list) and v and isinstance(v[0], ast.stmt):
+                setattr(node, field, self._block(v))
+        if isinstance(node, ast.Try):
+            for h in node.handlers:
+                h.body = self._block(h.body)
+        return node
+
+
+def return_temp(root: str) -> Dict[str, str]:
+    out = {}
+    for rel, src in _sources(root).items():
+        tree = _ReturnTemp().visit(ast.parse(src))
+        ast.fix_missing_locations(tree)
+        out[rel] = ast.unparse(tree) + "\n"
+    return out
+
+
+SWEEPS.update({"flip_compare": flip_compare, "swap_branches": swap_branches, "return_temp": return_temp})
